@@ -114,7 +114,6 @@ Proof. exact transfer_string. Qed.
 Print Assumptions C18_transfer_string.
 
 Theorem C18_transfer_mfr : forall contents ops obs,
-  mref_pre_all ops = true ->
   fst (fst (c18_verdict (CMfr contents ops obs))) = true ->
   snd (fst (c18_verdict (CMfr contents ops obs))) = true.
 Proof. exact transfer_mfr. Qed.
